@@ -54,7 +54,7 @@ def case_strategy(draw, tier):
     prios = []
     for _ in range(draw(st.integers(1, 2))):
         d = draw(st.dictionaries(st.sampled_from(ids), st.sampled_from([1, 1, 2, 2, 3, -1, -2, -3]), min_size=draw(st.integers(0, 1)), max_size=4))
-        prios.append([list(kv) for kv in sorted(d.items())])
+        prios.append(list(draw(st.permutations([list(kv) for kv in sorted(d.items())]))))     # insertion order is drawn
     if draw(st.integers(0, 5)) == 0:
         # priority levels taken from time stamps / packed counters: huge and close together, still distinct levels
         base = draw(st.sampled_from([2 ** 53, 1_760_000_000_000_000_000, 2 ** 60]))
@@ -205,5 +205,111 @@ def check(case, ev):
     ev.case(case, nontrivial, cl)
 
 
+@st.composite
+def big_case(draw, tier):
+    """catalogue-size configurators (60-450 columns): the objective is judged on pairs of CONSTRUCTED feasible configurations
+    (one option per group from drawn patterns, auxiliary columns by evaluation), since nothing can be enumerated"""
+    spec = draw(S.big_configurator_spec())
+    groups = [n for n in spec["c"] if n["k"] in ("cXor", "cAny")]
+    keys = []
+    for g in draw(st.lists(st.integers(0, len(groups) - 1), min_size=1, max_size=4, unique=True)):
+        opts = [c["id"] for c in groups[g]["c"]]
+        keys.append(opts[draw(st.integers(0, len(opts) - 1))])
+        if draw(st.booleans()):
+            keys.append(opts[draw(st.integers(0, len(opts) - 1))])
+    keys = list(dict.fromkeys(keys))
+    pr = [[k, draw(st.sampled_from([1, 2, 2, 3, -1, -2]))] for k in keys]
+    pr = list(draw(st.permutations(pr)))           # insertion order of the dictionary is NOT the order of the ids
+    picks = draw(st.lists(st.integers(0, 2 ** 30), min_size=10, max_size=14))
+    return {"model": spec, "prios": [pr], "picks": picks, "via": draw(st.sampled_from([0, 0, 1]))}
+
+
+def check_big(case, ev):
+    import numpy as np
+    spec = case["model"]
+    c = common.build_valid(case, ev)
+    if c is None:
+        return
+    build.clear_caches()
+    c = _obtain(c, spec, case.get("via", 0), ev)
+    if case.get("via", 0) and call(c.errors, what="errors()"):
+        ev.count("discarded_invalid_after_load_or_add")
+        return
+    poly = call(lambda: c.ge_polyhedron, what="ge_polyhedron")
+    cols, rws = oracle.rows(poly)
+    ids = [v.id for v in cols]
+    nd_ids = set(expected_nondefault_ids(spec))
+    missing = sorted(nd_ids - set(ids))
+    if missing:
+        raise Violation(f"the non-default branch(es) {missing[:4]} of a defaulted Any/Xor are not columns of the configurator's polyhedron")
+    dpv = [int(x) for x in np.asarray(poly.default_prio_vector).tolist()]
+    for i, w in zip(ids, dpv):
+        want = -2 if i in nd_ids else -1
+        if w != want:
+            raise Violation(f"default prio of column {i!r} is {w}, expected {want}")
+    lv = oracle.leaves(c)
+    comps = oracle.compounds(c)
+    groups = [n for n in spec["c"] if n["k"] in ("cXor", "cAny")]
+    points = []
+    for pk in case["picks"]:
+        env = {i: 0 for i in lv}
+        for n in spec["c"]:
+            if n["k"] == "leaf":
+                env[n["id"]] = 1                      # top-level items are conjuncts of the configurator
+        for g, n in enumerate(groups):
+            opts = [c_["id"] for c_ in n["c"]]
+            env[opts[(pk >> (2 * (g % 15))) % len(opts)]] = 1
+            if n["k"] == "cAny" and (pk >> (g % 29)) & 1:
+                env[opts[(pk >> (g % 13)) % len(opts)]] = 1
+        # repair picks that violate a requirement rule  a -> b  by switching b's group to b
+        owner = {c_["id"]: n for n in groups for c_ in n["c"]}
+        for _ in range(4):
+            for n in spec["c"]:
+                if n["k"] == "Imply" and all(c_["k"] == "leaf" for c_ in n["c"]):
+                    a_, b_ = n["c"][0]["id"], n["c"][1]["id"]
+                    if env.get(a_) == 1 and env.get(b_) == 0 and b_ in owner:
+                        if owner[b_]["k"] == "cXor":
+                            for c_ in owner[b_]["c"]:
+                                env[c_["id"]] = 0
+                        env[b_] = 1
+        memo = {}
+        if oracle.obj_value(c, env, memo=memo) != 1:
+            continue                                  # still violates a requirement rule between groups
+        full = dict(env)
+        for cid, node in comps.items():
+            full[cid] = oracle.obj_value(node, env, memo=memo)
+        x = [full[i] for i in ids]
+        if not oracle.all_rows_hold(rws, x):
+            raise Violation(f"a configuration that satisfies every rule (with evaluated auxiliary values) is not a point of the configurator's polyhedron")
+        points.append(x)
+    prios = [dict((k, v) for k, v in pr) for pr in case["prios"]]
+    log = []
+    list(call(c.select, *prios, solver=solvers.marker(log), what="select"))
+    if len(log) != 1 or len(log[0]["objectives"]) != len(prios):
+        raise Violation("solver not called once with one objective per priority dictionary")
+    n_pairs = 0
+    for pr, obj in zip(prios, log[0]["objectives"]):
+        obj = [int(o) for o in obj]
+        eff = {i: pr[i] for i in ids if i in pr and pr[i] != 0}
+        levels = sorted({abs(v) for v in eff.values()}, reverse=True)
+
+        def key(x):
+            k = []
+            for L_ in levels:
+                k.append(sum((1 if eff[i] > 0 else -1) * xv for i, xv in zip(ids, x) if i in eff and abs(eff[i]) == L_))
+            k.append(-sum(xv for i, xv in zip(ids, x) if i not in eff and i in nd_ids))
+            k.append(-sum(xv for i, xv in zip(ids, x) if i not in eff and i not in nd_ids))
+            return tuple(k)
+        keys = [key(x) for x in points]
+        vals = [solvers.objective_value(obj, x) for x in points]
+        for (kx, vx), (ky, vy) in itertools.combinations(zip(keys, vals), 2):
+            n_pairs += 1
+            if (kx > ky) != (vx > vy) or (kx == ky) != (vx == vy):
+                raise Violation(f"objective for priorities {list(pr.items())} ranks two feasible configurations (values {vx} vs {vy}) against their "
+                                f"lexicographic keys {kx} vs {ky} (user levels, non-default branches, selected columns); {len(ids)} columns")
+    ev.count("pairs", n_pairs)
+    ev.case(case, len(points) >= 3 and bool(nd_ids), ["columns>=257" if len(ids) >= 257 else "columns<257", f"feasible_constructed={min(len(points), 5)}"])
+
+
 def parts(tier):
-    return [Part("objective", strategy=lambda t: case_strategy(t), check=check, quick=(8, 250), thorough=(16, 1500))]
+    return [Part("scale", strategy=lambda t: big_case(t), check=check_big, quick=(2, 20), thorough=(4, 300)), Part("objective", strategy=lambda t: case_strategy(t), check=check, quick=(8, 250), thorough=(16, 1500))]
